@@ -393,6 +393,35 @@ def run_future_deque(args):
             F.outcome == E.BV8(12), z3.Or(*late), z3.Not(z3.And(F.curL["act"] == E.BV8(1), woke_last)))
     nstarted = sum([z3.If(c, E.BV8(1), E.BV8(0)) for c in started], E.BV8(0))
     v["contained future polled although it was neither just inserted nor woken"] = z3.UGT(F.curL["futn"], E.BV8(1) + nstarted)
+    if args.pin:
+        # sequential translation validation: items run one at a time in the given global order (list of thread ids;
+        # owner items: push, polls / drop; waker thread items: hand-off receive, then its operations)
+        order, seen = [], {}
+        for t_ in [int(x) for x in args.pin.split(",")]:
+            order.append((t_, seen.get(t_, 0)))
+            seen[t_] = seen.get(t_, 0) + 1
+        cons = []
+        for i_ in range(enc.k):
+            S_ = enc.S[i_]
+
+            def in_item(t, j_):
+                ids = [nid for nid, o in threads[t]["item_of"].items() if o == j_]
+                return z3.Or(*[S_.pc[t] == E.N(nid) for nid in ids]) if ids else z3.BoolVal(False)
+
+            def finished(u, m_):
+                return z3.Not(z3.Or(*[in_item(u, mm) for mm in range(m_ + 1)]))
+            for pos, (t, j_) in enumerate(order):
+                if order[:pos]:
+                    cons.append(z3.Implies(z3.And(enc.sched[i_] == E.N(t), in_item(t, j_)), z3.And(*[finished(u, m_) for (u, m_) in order[:pos]])))
+        r, m = enc.check(done, *cons, timeout_s=args.timeout)
+        if r != z3.sat:
+            out.update(verdict="pin-unsat", detail=str(r))
+            return out
+        ev = lambda x: m.eval(x, model_completion=True)
+        invoked = [ev(F.res[1 + j_]).as_long() for j_ in range(nwakes)]
+        out.update(verdict="pinned", final=dict(future_polls=ev(F.curL["futn"]).as_long(), woken=[invoked.count(1), invoked.count(2)], bad=ev(F.bad).as_long(), race=ev(F.race).as_long(),
+                                                ref_count=ev(F.curL["ref"]).as_long(), released=ev(F.cnt["released"]).as_long()))
+        return out
     tq = time.time()
     r, m = enc.check(done, timeout_s=args.timeout)
     out["queries"].append(dict(q="witness: a complete run exists", result=str(r), s=round(time.time() - tq, 2)))
